@@ -74,7 +74,10 @@ pub fn sweep_ops(n_sheets: usize) -> Vec<Op> {
         v.push(Op::Formula(a.clone()));
         v.push(Op::MergeCells(a.clone()));
     }
-    for h in [Some(0u32), Some(5), Some(u32::MAX)] {
+    // the last addressable row first: it never asks for a large rectangle, so it is reached even
+    // when a lower header row over a sheet that starts billions of rows down ends the run (known
+    // finding: dense Range::new)
+    for h in [Some(u32::MAX), Some(0u32), Some(5)] {
         v.push(Op::SetHeader(h));
         for i in 0..k {
             v.push(Op::Range(SheetArg::Idx(i)));
@@ -129,7 +132,12 @@ pub fn execute(
     guard::alloc_begin(limits.alloc_budget);
 
     ctl.borrow_mut().begin_op(0);
-    let opened = open_guarded(entry, disk, image_len);
+    // a history that starts with OpenWith(n) constructs the xls reader with that header row
+    let open_header = match (entry, ops.first()) {
+        (Entry::Xls, Some(Op::OpenWith(n))) => Some(*n),
+        _ => None,
+    };
+    let opened = open_guarded(entry, disk, image_len, open_header);
     let open_fired = ctl.borrow().op_fired.clone();
     let open_events = ctl.borrow().op_ev;
     let mut records: Vec<OpRecord> = Vec::new();
@@ -146,7 +154,7 @@ pub fn execute(
         Ok(mut wb) => {
             kind = wb.kind();
             names = guard::untracked(|| wb.sheet_names());
-            let mut st = ExecState { capture: opts.capture, ..Default::default() };
+            let mut st = ExecState { capture: opts.capture, header: open_header, ..Default::default() };
             // expand the sweep marker
             let expanded: Vec<Op> = guard::untracked(|| {
                 let mut v = Vec::new();
